@@ -48,26 +48,6 @@ def parseObs (j : Json) : Except String Jinns.Holds.Obs06 := do
     pure { specs := specs, error := none, masks := masks, termVals := termVals, totalVal := totalVal,
            termGrads := termGrads, totalGrad := totalGrad }
 
-/-- what the model predicts for one specification: `none` = rejected, else
-    (masks per term, values per returned term, total value, gradients per returned term, total gradient) -/
-def predict (s : Jinns.Holds.Setup06) (specs : List Spec) :
-    Option (List Mask × List Rat × Rat × List (List Vec) × List Vec) :=
-  let nEqs := s.nView.map (· - 1)
-  let resolved := allSome ((specs.zip nEqs).map (fun (sp, n) => resolve n sp))
-  match resolved with
-  | none => none
-  | some masks =>
-    let terms : List LossTerm := (s.baseVals.zip s.baseGrads).map (fun (v, d) => { val := v, diff := d })
-    let lifted := (s.gmaps.zip masks).map (fun (gm, m) => liftMask gm m)
-    let fam : Family := lifted.zip terms
-    let ev := evalTerms fam
-    let pick (members : List Nat) : List LossTerm := members.filterMap (fun k => ev[k]?)
-    let gradsOf (ts : List LossTerm) : List Vec :=
-      (List.range s.dims.length).map (fun g => gradient (totalJvp ts) g (s.dims.getD g 0))
-    let rVals := s.returned.map (fun ms => totalVal (pick ms))
-    let rGrads := s.returned.map (fun ms => gradsOf (pick ms))
-    some (masks, rVals, totalVal ev, rGrads, gradsOf ev)
-
 def jBoolMat (l : List (List Bool)) : Json := .arr (l.map jBools).toArray
 def jRatCube (l : List (List (List Rat))) : Json := .arr (l.map jRatMat).toArray
 
@@ -103,27 +83,29 @@ def handleC06 (j : Json) : Except String Json := do
     | some _, _ => Json.null
     | none, some (i, _) => Json.num (i : Nat)
     | none, none => Json.null
-  -- the model against the observations
+  -- the model (`DerivKeys.predict`) against the observations
+  let lay : Layout := { gmaps := gmaps, nView := nView, dims := dims, baseVals := baseVals,
+                        baseGrads := baseGrads, returned := returned }
   let rec go (i : Nat) (os : List Jinns.Holds.Obs06) : Option (Nat × Json) :=
     match os with
     | [] => none
     | o :: rest =>
-      let p := predict s (o.specs.map toModelSpec)
+      let p := predict lay (o.specs.map toModelSpec)
       let same : Bool := match p, o.error with
         | none, some e => e == "value_error"
         | none, none => false
         | some _, some _ => false
-        | some (masks, rVals, tVal, rGrads, tGrad), none =>
-          masks == o.masks && rVals == o.termVals && tVal == o.totalVal
-            && rGrads == o.termGrads && tGrad == o.totalGrad
+        | some p, none =>
+          p.masks == o.masks && p.termVals == o.termVals && p.totalVal == o.totalVal
+            && p.termGrads == o.termGrads && p.totalGrad == o.totalGrad
       if same then go (i + 1) rest
       else
         let pj : Json := match p with
           | none => Json.mkObj [("rejected", Json.bool true)]
-          | some (masks, rVals, tVal, rGrads, tGrad) =>
-            Json.mkObj [("rejected", Json.bool false), ("masks", jBoolMat masks),
-              ("term_vals", jRats rVals), ("total_val", jRat tVal),
-              ("term_grads", jRatCube rGrads), ("total_grad", jRatMat tGrad)]
+          | some p =>
+            Json.mkObj [("rejected", Json.bool false), ("masks", jBoolMat p.masks),
+              ("term_vals", jRats p.termVals), ("total_val", jRat p.totalVal),
+              ("term_grads", jRatCube p.termGrads), ("total_grad", jRatMat p.totalGrad)]
         some (i, pj)
   let dis := go 0 obs
   pure <| Json.mkObj [
